@@ -209,4 +209,50 @@ example : DwimDomain (lookupRef exampleGitDir []) [97] := by
 
 example : find exampleGitDir [] [97] = .ref (refsSlash ++ tagsC ++ 47 :: [97]) (.id 1) := by decide
 
+/-! ### names that look like full names (`refs/…`): the remaining deviation from git, made explicit -/
+
+/-- the deviation: a `refs/…` name that does not exist itself, for which git's further expansions
+(`refs/refs/…`, `refs/tags/refs/…`, `refs/heads/refs/…`, `refs/remotes/refs/…[/HEAD]`) and gitoxide's
+further probes (`tags/refs/…`, `heads/refs/…`, `remotes/refs/…[/HEAD]` in the git dir) disagree -/
+def RefsPrefixDeviation (look : Name → Option Target) (n : Name) : Prop :=
+  looksFull n false = true ∧ look n = none ∧ dwimIn look (candidates n) ≠ dwimIn look (rules n)
+
+/-- `dwim_eq_git` on the FULL domain of names that look like full names (no unparsable candidate is
+the only assumption): gitoxide and git agree exactly when `RefsPrefixDeviation` does not hold. -/
+theorem dwim_full_name_iff (g : Forest) (p : List Item) (n : Name)
+    (hb : ∀ c, lookupRef g p c ≠ some .broken) (hf : looksFull n false = true) :
+    find g p n = dwim (lookupRef g p) n ↔ ¬ RefsPrefixDeviation (lookupRef g p) n := by
+  unfold find dwim RefsPrefixDeviation
+  rw [findIn_eq_dwimIn g p _ (fun c _ => hb c)]
+  cases hl : lookupRef g p n with
+  | some t =>
+    rw [dwimIn_head (cand_full_head n hf) hl]
+    simp [rules, dwimIn, hl]
+  | none => simp [hf]
+
+/-- an existing `refs/…` name is always found, by both -/
+theorem dwim_full_name_existing (g : Forest) (p : List Item) (n : Name) (t : Target)
+    (hb : ∀ c, lookupRef g p c ≠ some .broken) (hf : looksFull n false = true)
+    (hl : lookupRef g p n = some t) :
+    find g p n = .ref n t ∧ dwim (lookupRef g p) n = .ref n t := by
+  unfold find dwim
+  rw [findIn_eq_dwimIn g p _ (fun c _ => hb c), dwimIn_head (cand_full_head n hf) hl]
+  simp [rules, dwimIn, hl]
+
+/-- HEAD, refs/tags/refs/heads/x -/
+def deviationGitDir : Forest :=
+  .file headName (.id 24) (.dir refsC
+    (.dir tagsC (.dir refsC (.dir headsC (.file [120] (.id 1) .nil) .nil) .nil) .nil) .nil)
+
+/-- the deviation is real (known finding, replayed against the real code and git by the harness
+corpus): with only `refs/tags/refs/heads/x` in the store, `refs/heads/x` resolves in git (rule
+`refs/tags/%s`) but gitoxide answers "not found". -/
+theorem refs_prefix_deviation_witness :
+    find deviationGitDir [] (refsSlash ++ headsC ++ [47, 120]) = .none ∧
+    dwim (lookupRef deviationGitDir []) (refsSlash ++ headsC ++ [47, 120]) =
+      .ref (refsSlash ++ tagsC ++ 47 :: (refsSlash ++ headsC ++ [47, 120])) (.id 1) ∧
+    RefsPrefixDeviation (lookupRef deviationGitDir []) (refsSlash ++ headsC ++ [47, 120]) := by
+  refine ⟨by decide, by decide, by decide, by decide, ?_⟩
+  decide
+
 end GixModel.Props.C18
